@@ -11,6 +11,8 @@ pub mod c09;
 pub mod c10;
 #[cfg(not(feature = "stateless"))]
 pub mod c11;
+#[cfg(feature = "stateless")]
+pub mod c11s;
 #[cfg(not(feature = "stateless"))]
 pub mod c12;
 #[cfg(not(feature = "stateless"))]
@@ -37,6 +39,8 @@ pub fn run(prop: &str, rep: &mut Rep, args: &[String]) -> bool {
         "C12" => c12::run(rep),
         #[cfg(not(feature = "stateless"))]
         "C13" => c13::run(rep),
+        #[cfg(feature = "stateless")]
+        "C11S" => c11s::run(rep),
         "C03" => c03::run(rep),
         "C04" => c04::run(rep),
         "C05" => c05::run(rep),
